@@ -123,6 +123,16 @@ theorem C29_no_loss (P : Params) (s s' : State) (a : Action) (hi : Inv P s) (h :
   | readFault =>
     simp only [step, Option.some.injEq] at h
     subst h; exact hx
+  | syncLoad g =>
+    simp only [step] at h
+    split at h
+    · simp only [Option.some.injEq] at h; subst h; exact hx
+    · simp at h
+  | syncDrop g =>
+    simp only [step] at h
+    split at h
+    · simp only [Option.some.injEq] at h; subst h; exact hx
+    · simp at h
 
 /-- C29, "never invents": only a newly shipped block brings a new sample; a compaction result
     holds nothing but samples of the blocks it was compacted from. -/
@@ -202,6 +212,16 @@ theorem C29_no_invention (P : Params) (s s' : State) (a : Action) (hns : a ≠ .
   | readFault =>
     simp only [step, Option.some.injEq] at h
     subst h; exact hx
+  | syncLoad g =>
+    simp only [step] at h
+    split at h
+    · simp only [Option.some.injEq] at h; subst h; exact hx
+    · simp at h
+  | syncDrop g =>
+    simp only [step] at h
+    split at h
+    · simp only [Option.some.injEq] at h; subst h; exact hx
+    · simp at h
 
 
 /-! ### the planner is not part of the model: ANY plan over the compactor's view is allowed -/
@@ -425,6 +445,16 @@ theorem step_lam (P : Params) (s s' : State) (a : Action) (hi : Inv P s) (hl : L
   | readFault =>
     simp only [step, Option.some.injEq] at h
     subst h; exact hl
+  | syncLoad g =>
+    simp only [step] at h
+    split at h
+    · simp only [Option.some.injEq] at h; subst h; exact ⟨hl.src_lt, hl.laminar⟩
+    · simp at h
+  | syncDrop g =>
+    simp only [step] at h
+    split at h
+    · simp only [Option.some.injEq] at h; subst h; exact ⟨hl.src_lt, hl.laminar⟩
+    · simp at h
 
 theorem run_lam (P : Params) (hT : P.levelTie = true) : ∀ (acts : List Action) (s s' : State),
     s.gws = [] → Inv P s → Lam s → run P s acts = some s' → Lam s'
